@@ -3,7 +3,7 @@ import logging
 import os
 import time
 from pathlib import PurePath
-from typing import Any, Optional, List, Union, Dict
+from typing import Any, Optional, List, Union, Dict, Tuple
 from collections import OrderedDict
 
 from .codec import codec_registry, CodecRegistry
@@ -224,11 +224,23 @@ class LocalFileStore(Store):
         p = os.path.join(self._root, "blobs", key)
         return os.path.exists(p)
 
+    def _data_location(self, path: DDSPath) -> "Tuple[str, str]":
+        """
+        The directory and the location of a path under the data directory:
+        one directory level per segment of the path.
+        """
+        segments = [s for s in path.split("/") if s]
+        if not segments or any(s in (".", "..") for s in segments):
+            raise DDSException(
+                f"Path {path} cannot be mapped to a location inside {self._data_root}",
+                DDSErrorCode.STORE_PATH_NOT_SUPPORTED,
+            )
+        loc_dir = os.path.join(self._data_root, *(segments[:-1]))
+        return (loc_dir, os.path.join(loc_dir, segments[-1]))
+
     def sync_paths(self, paths: "OrderedDict[DDSPath, PyHash]") -> None:
         for (path, key) in paths.items():
-            splits = [s.replace("/", "") for s in os.path.split(path)]
-            loc_dir = os.path.join(self._data_root, *(splits[:-1]))
-            loc = os.path.join(loc_dir, splits[-1])
+            (loc_dir, loc) = self._data_location(path)
             if not os.path.exists(loc_dir):
                 _logger.debug(f"Creating dir {loc_dir}")
                 os.makedirs(loc_dir)
@@ -246,9 +258,7 @@ class LocalFileStore(Store):
         for path in paths:
             if path not in res:
                 # Assemble the path
-                splits = [s.replace("/", "") for s in os.path.split(path)]
-                loc_dir = os.path.join(self._data_root, *(splits[:-1]))
-                loc = os.path.join(loc_dir, splits[-1])
+                (loc_dir, loc) = self._data_location(path)
                 if not os.path.exists(loc_dir):
                     _logger.debug(f"Dir {loc_dir} does not exist")
                     raise DDSException(
